@@ -856,11 +856,11 @@ fn panic_or<T>(r: Result<T, PanicKind>, f: impl FnOnce(T) -> String) -> String {
 
 macro_rules! runner_for {
     ($modname:ident, $T:ty) => {
-        mod $modname {
+        pub mod $modname {
             use super::*;
             type T = $T;
-            type Dyn<const D: usize> = Box<dyn TensorRef<T, D>>;
-            type MDyn = Box<dyn MatrixRef<T>>;
+            pub type Dyn<const D: usize> = Box<dyn TensorRef<T, D>>;
+            pub type MDyn = Box<dyn MatrixRef<T>>;
 
             #[derive(Clone)]
             pub struct TOp<const D: usize> {
@@ -883,24 +883,24 @@ macro_rules! runner_for {
             }
 
             impl<const D: usize> TOp<D> {
-                fn boxed(&self) -> Dyn<D> {
+                pub fn boxed(&self) -> Dyn<D> {
                     let mut cur: Dyn<D> = Box::new(self.base.clone());
                     for ad in &self.ads {
                         cur = wrap(cur, ad);
                     }
                     cur
                 }
-                fn plain(&self) -> Tensor<T, D> {
+                pub fn plain(&self) -> Tensor<T, D> {
                     assert!(self.ads.is_empty(), "form needs a plain tensor");
                     self.base.clone()
                 }
-                fn access(&self) -> TensorAccess<T, Tensor<T, D>, D> {
+                pub fn access(&self) -> TensorAccess<T, Tensor<T, D>, D> {
                     match &self.ads[..] {
                         [Ad::Access(n)] => TensorAccess::from(self.base.clone(), names_array(n)),
                         _ => panic!("form needs exactly one access adaptor"),
                     }
                 }
-                fn transposed(&self) -> TensorTranspose<T, Tensor<T, D>, D> {
+                pub fn transposed(&self) -> TensorTranspose<T, Tensor<T, D>, D> {
                     match &self.ads[..] {
                         [Ad::Transpose(n)] => TensorTranspose::from(self.base.clone(), names_array(n)),
                         _ => panic!("form needs exactly one transpose adaptor"),
@@ -922,18 +922,18 @@ macro_rules! runner_for {
             }
 
             impl MOp {
-                fn boxed(&self) -> MDyn {
+                pub fn boxed(&self) -> MDyn {
                     let mut cur: MDyn = Box::new(self.base.clone());
                     for ad in &self.ads {
                         cur = mwrap(cur, ad);
                     }
                     cur
                 }
-                fn plain(&self) -> Matrix<T> {
+                pub fn plain(&self) -> Matrix<T> {
                     assert!(self.ads.is_empty(), "form needs a plain matrix");
                     self.base.clone()
                 }
-                fn ranged(&self) -> MatrixRange<T, Matrix<T>> {
+                pub fn ranged(&self) -> MatrixRange<T, Matrix<T>> {
                     match &self.ads[..] {
                         [MAd::Range(r, c)] => MatrixRange::from(self.base.clone(), *r, *c),
                         _ => panic!("form needs exactly one range adaptor"),
@@ -1215,10 +1215,10 @@ macro_rules! runner_for {
             }
 
             impl Env {
-                fn tensor(&self, n: &str) -> Option<&AnyT> {
+                pub fn tensor(&self, n: &str) -> Option<&AnyT> {
                     self.tens.iter().find(|(k, _)| k == n).map(|(_, v)| v)
                 }
-                fn matrix(&self, n: &str) -> Option<&MOp> {
+                pub fn matrix(&self, n: &str) -> Option<&MOp> {
                     self.mats.iter().find(|(k, _)| k == n).map(|(_, v)| v)
                 }
 
